@@ -160,7 +160,7 @@ def _normalize_test_dependencies(test: Test, all_tests: Dict[str, Test]):
     for test_dep in test.dependencies:
         if callable(test_dep):
             for other_test in all_tests.values():
-                if other_test != test and test_dep(other_test):
+                if other_test.path != test.path and test_dep(other_test):
                     yield other_test
         else:
             try:
